@@ -46,6 +46,10 @@ TECHNIQUE += '; accessor evaluation of the segmentation'
 TECHNIQUE += '; symbolic evaluation of the 1-D kernel recurrence, of the normalisation identity and of the tail conversion; two-call evaluation for remembered results'
 EXPLANATION += ' Added: (R8) also a second call of convert_to_segmented on the same basis object after its shells / conventions were edited in place must give the result for the edited basis (module state of the first call kept by the evaluator); (R9) the quantity compared with the screening threshold is the bare pair exponential; (R10) centres enter through differences only; (R11) the 1-D kernel satisfies its recurrence and symmetry for n <= 5 on symbols; (R12) normalisation constants x prefactor x kernel give unit self-overlap for every Cartesian function up to l = 3.'
 # --- end metadata batch 7
+# --- metadata added for batch 8
+TECHNIQUE += '; backward slice evaluation of the table sizing'
+EXPLANATION += ' Added: (R13) the statements that size the kernel tables (a backward slice from the GaussianOverlap constructor call) evaluated on two bases of different height in both orders. R11 runs to n1, n2 <= 7 as the property quantifies, compares polynomials up to rounding of numeric constants (a kernel by quadrature with enough points passes, one point too few fails at S(7, 7)) and evaluates class-level attributes.'
+# --- end metadata batch 8
 
 
 def df(n):
